@@ -186,6 +186,47 @@ def signature(c, clause):
             "full_line": any(iv["loinf"] and iv["hiinf"] for iv in c.get("iv", []))}
 
 
+def tuples_ml(out, tag):
+    """PrintT(<<"tag", ...>>) values in TLC's output.  TLC prints a long tuple over several
+    lines (starting with '<< "tag",'); TlcResult.tuples only sees one-line tuples."""
+    res = []
+    lines = out.splitlines()
+    k = 0
+    heads = ('<<"%s"' % tag, '<< "%s"' % tag)
+    while k < len(lines):
+        line = lines[k]
+        k += 1
+        if not line.startswith(heads):
+            continue
+        buf = line
+        while True:
+            depth = 0
+            instr = False
+            j = 0
+            while j < len(buf):
+                ch = buf[j]
+                if instr:
+                    if ch == "\\":
+                        j += 1
+                    elif ch == '"':
+                        instr = False
+                elif ch == '"':
+                    instr = True
+                elif buf.startswith("<<", j):
+                    depth += 1
+                    j += 1
+                elif buf.startswith(">>", j):
+                    depth -= 1
+                    j += 1
+                j += 1
+            if depth <= 0 or k >= len(lines):
+                break
+            buf += "\n" + lines[k]
+            k += 1
+        res.append(tlc.parse_tla_value(buf))
+    return res
+
+
 def judge(wd, k, cases):
     w = os.path.join(wd, "j%d" % k)
     os.makedirs(w)
@@ -274,9 +315,9 @@ def run(chk, cases_in=None):
         diagnostics = {}
         for r in rs:
             chk.add_tlc(r)
-            for _, n in r.tuples("DONE"):
+            for _, n in tuples_ml(r.out, "DONE"):
                 done += n
-            for _, cid, kind, res, n1, n2, n3, flag, nev in r.tuples("CASE"):
+            for _, cid, kind, res, n1, n2, n3, flag, nev in tuples_ml(r.out, "CASE"):
                 c = byid[cid]
                 judged += 1
                 chk.cov["evaluations"] += nev
@@ -302,17 +343,17 @@ def run(chk, cases_in=None):
                         chk.mismatch(signature(c, "exception" if res == "exc" else "empty"), record(c, res, None, 0, ""))
                     else:
                         chk.cov["unjudged"] += 1
-            for _, cid, clause, wit, count, extra in r.tuples("MISMATCH"):
+            for _, cid, clause, wit, count, extra in tuples_ml(r.out, "MISMATCH"):
                 c = byid[cid]
                 if c["family"] == "extended":
                     diagnostics.setdefault("extended " + clause, []).append(
                         {"regex": smt.to_smt2(c["term"]), "result": c.get("raw"), "witness": wit})
                     continue
                 chk.mismatch(signature(c, "soundness" if clause == "soundness-string" else clause), record(c, clause, wit, count, extra))
-            for _, cid, clause, wit, count, extra in r.tuples("UNJUDGED"):
+            for _, cid, clause, wit, count, extra in tuples_ml(r.out, "UNJUDGED"):
                 chk.cov["unjudged"] += 1
                 chk.note("unjudged_" + clause)
-            for t in r.tuples("MODEL"):
+            for t in tuples_ml(r.out, "MODEL"):
                 model_bad.append((t, smt.to_smt2(byid[t[1]]["term"])))
         if done != len(tojudge) or judged != len(tojudge):
             raise RuntimeError("TLC judged %d/%d of %d cases" % (judged, done, len(tojudge)))
